@@ -65,7 +65,7 @@ Lemma lstep_frame c c' : lstep c = Some c' ->
   pubs c' = pubs c /\ last_mid c' = last_mid c /\ mid_lock c' = mid_lock c /\ alloc_log c' = alloc_log c.
 Proof.
   unfold lstep. intros H.
-  destruct (loop c) as [|wl| | |p| | |ver k| | | | |];
+  destruct (loop c) as [|wl| | |p| | | | |];
     repeat match type of H with
            | context [if ?b then _ else _] => destruct b
            | context [match ?x with _ => _ end] => destruct x
@@ -75,11 +75,11 @@ Qed.
 Lemma timeout_frame c c' : timeout_step c = Some c' ->
   pubs c' = pubs c /\ last_mid c' = last_mid c /\ mid_lock c' = mid_lock c /\ alloc_log c' = alloc_log c /\
   out_packet c' = out_packet c /\ wire c' = wire c /\ pipe c' = pipe c /\ sock c' = sock c /\
-  loop c = LSelect false /\ pipe c = O /\ loop c' = LWant /\ crashed c' = crashed c /\ qver c' = qver c /\
+  loop c = LSelect false /\ pipe c = O /\ loop c' = LWant /\
   nconn c' = nconn c.
 Proof.
   unfold timeout_step. intros H.
-  destruct (loop c) as [|[|]| | |p| | |ver k| | | | |]; try discriminate.
+  destruct (loop c) as [|[|]| | |p| | | | |]; try discriminate.
   destruct (0 <? pipe c)%nat eqn:E; [discriminate|].
   inversion H; subst; cbn. apply Nat.ltb_ge in E.
   repeat split; try reflexivity. lia.
@@ -87,7 +87,7 @@ Qed.
 
 (* publisher steps never touch wire, socket, loop pc, crash flag, timeouts *)
 Lemma pstep_frame i p c c' : pstep i p c = Some c' ->
-  wire c' = wire c /\ sock c' = sock c /\ loop c' = loop c /\ crashed c' = crashed c /\ timeouts c' = timeouts c /\
+  wire c' = wire c /\ sock c' = sock c /\ loop c' = loop c /\ timeouts c' = timeouts c /\
   nconn c' = nconn c /\ length (pubs c') = length (pubs c).
 Proof.
   unfold pstep. intros H.
